@@ -32,6 +32,7 @@ def step (d : DSt) (toks : List String) : DSt × String :=
     ({ d with st := { d.st with reg := d.st.reg.set n ⟨natD body, capsOf req, capsOf caps, boolOf r⟩ } }, "ok")
   | ["reg", n, body, req, caps, r, _style] =>      -- style of the Python tool object: irrelevant to the model
     ({ d with st := { d.st with reg := d.st.reg.set n ⟨natD body, capsOf req, capsOf caps, boolOf r⟩ } }, "ok")
+  | ["unreg", n] => ({ d with st := { d.st with reg := d.st.reg.erase n } }, "ok")
   | ["schemas"] => (d, "ok")                       -- export_tool_schemas / list_tools: must not change anything
   | ["met", mode, callee, a, recorded] =>
     let p : Pre := match mode with
